@@ -112,6 +112,30 @@ theorem gc_caches_only_preserves (s : Arena) (h : s.OK) :
       (s.gcCachesOnly).ucache = [] ∧ (s.gcCachesOnly).icache = [] ∧ (s.gcCachesOnly).dcache = [] ∧
       (s.gcCachesOnly).ccache = [] := gcCachesOnly_spec h
 
+/-- every arena operation keeps the invariant (`TWF` table + correct caches), whatever it returns -/
+theorem arena_operations_preserve_invariant (s : Arena) (hs : s.OK) (a b : Ref) (ha : Valid s.table a)
+    (hb : Valid s.table b) (v : Nat) (l : List Nat) :
+    (∀ s' r, s.union a b = some (s', r) → s'.OK) ∧ (∀ s' r, s.inter a b = some (s', r) → s'.OK) ∧
+    (∀ s' r, s.diff a b = some (s', r) → s'.OK) ∧ (∀ s' r, s.pwo a v = some (s', r) → s'.OK) ∧
+    (∀ s' k, s.count a = some (s', k) → s'.OK) ∧ (s.singleton v).1.OK ∧ (s.fromSet l).1.OK := by
+  refine ⟨?_, ?_, ?_, ?_, ?_, (Arena.singleton_spec hs v).1, (Arena.fromSet_spec hs l).1⟩
+  · intro s' r h; obtain ⟨s'', r'', e, ok, _⟩ := Arena.union_spec hs ha hb; rw [e] at h; cases h; exact ok
+  · intro s' r h; obtain ⟨s'', r'', e, ok, _⟩ := Arena.inter_spec hs ha hb; rw [e] at h; cases h; exact ok
+  · intro s' r h; obtain ⟨s'', r'', e, ok, _⟩ := Arena.diff_spec hs ha hb; rw [e] at h; cases h; exact ok
+  · intro s' r h; obtain ⟨s'', r'', e, ok, _⟩ := Arena.pwo_spec hs ha v; rw [e] at h; cases h; exact ok
+  · intro s' k h; obtain ⟨s'', e, ok, _⟩ := Arena.count_spec hs ha; rw [e] at h; cases h; exact ok
+
+/-- iteration over a handle of a well-formed table yields each member once, elements ascending
+(`sets (treeOf t r)` is the sequence `ArenaIterator` yields: lo branch before hi branch) -/
+theorem arena_iteration_once_ascending (t : Table) (h : TWF t) (r : Ref) (hv : Valid t r) :
+    (sets (treeOf t r)).Nodup ∧ ∀ s ∈ sets (treeOf t r), s.Pairwise (· < ·) :=
+  ⟨sets_nodup (tree_ord h hv), fun _ hs => (mem_sorted (tree_ord h hv) hs).1⟩
+
+/-- the judge's pairwise test "same family ⇔ same handle" can never fire once the table is well-formed
+and the handles denote the model trees: canonicity is a theorem, not an observation -/
+theorem judge_canonicity_test_redundant (t : Table) (regs : List (Nat × Ref)) (model : Nat → Z) :
+    judgeTable t regs model ≠ .notCanonical := judge_never_notCanonical t regs model
+
 /-- non-vacuity: a three-node table ({{1},{0,1}} and {{1}}) is well-formed and accepted by the judge -/
 example : TWF #[⟨1, .E, .B⟩, ⟨0, .N 0, .N 0⟩] ∧
     judgeTable #[⟨1, .E, .B⟩, ⟨0, .N 0, .N 0⟩] [(0, .N 1), (1, .N 0)]
